@@ -472,7 +472,7 @@ def decoder_pattern(model):
 
 
 def encoder_grammar(table, respin):
-    sufs = sorted(s for s in table.values() if s)
+    sufs = sorted(set(s for s in table.values() if s))
     alt = "|".join(_re.escape(s) for s in sufs)
     return r"^[^\n]*-(?P<date>[0-9]{8})(?:(?P<type>%s))?\.(?P<respin>%s)$" % (alt, respin)
 
